@@ -125,6 +125,10 @@ func releasePath(ctx context.Context, basename string) string {
 }
 
 func fileExists(ctx context.Context, cops ChangeOps, fullpath string) (bool, error) {
+	// A dry run has no workspace: nothing is read, and nothing can be overwritten.
+	if cops == nil {
+		return false, nil
+	}
 	_, err := cops.ReadFile(ctx, fullpath)
 	if cops.IsNotFound(err) {
 		return false, nil
@@ -214,6 +218,11 @@ func writeEndorsement(ctx context.Context, paths []string, endorsement *epb.VMLa
 	endorsementBytes, err := proto.Marshal(endorsement)
 	if err != nil {
 		return fmt.Errorf("failed to marshal endorsement binary proto: %w", err)
+	}
+	// A dry run has no workspace: nothing is written.
+	if cops == nil {
+		output.Infof(ctx, "dry run: would write endorsement to %v", paths)
+		return nil
 	}
 	var files []*File
 	for _, path := range paths {
@@ -315,6 +324,11 @@ func snapshotEndorsement(ctx context.Context, cops ChangeOps, endorsement *epb.V
 	}
 	if err := writeEndorsement(ctx, endorsementPaths, endorsement, cops); err != nil {
 		return err
+	}
+	// A dry run has no workspace: nothing is written.
+	if cops == nil {
+		output.Infof(ctx, "dry run: would write %d snapshot files under %s", len(files), fwPath)
+		return nil
 	}
 	if err := cops.WriteOrCreateFiles(ctx, files...); err != nil {
 		return err
